@@ -28,11 +28,12 @@ theorem tramp_never_nested (fixed : Bool) (prog : List Op) (clock : Int) (acts :
   rw [this.2]; exact Bool.toNat_le _
 
 /-- **An action scheduled while another is running runs only after that action returns.**  If `b` was
-scheduled (`sched b` logged) while `a` was open, and `b` later starts, then `fin a` lies between. -/
+scheduled (`sched b` logged) while `a` was open, and `b` later starts, then `fin a` (or `raised a`, if `a`
+raised) lies between. -/
 theorem nested_runs_after_return (fixed : Bool) (prog : List Op) (clock : Int) (acts : List Act)
     (post mid pre : List Ev) (a b : Nat) (d d' c c' : Int) (q : Nat) (k : Kind)
     (hlog : (runA fixed (init prog clock) acts).th.log = post ++ Ev.start b d q c :: (mid ++ Ev.sched b d' c' k :: pre))
-    (ha : wb pre = some (some a)) : Ev.fin a ∈ mid := by
+    (ha : wb pre = some (some a)) : Ev.fin a ∈ mid ∨ Ev.raised a ∈ mid := by
   obtain ⟨o, _, hw⟩ := (reach fixed prog clock acts).i1
   rw [hlog] at hw
   obtain ⟨o1, h1⟩ := wb_suffix _ _ _ hw
@@ -98,8 +99,37 @@ theorem exec_is_runA (fixed : Bool) (n : Nat) (s : St) : ∃ acts, exec fixed n 
     unfold exec
     split
     · exact ⟨[], rfl⟩
-    · obtain ⟨acts, h⟩ := ih (step fixed s 0)
-      exact ⟨.go 0 :: acts, by rw [h]; rfl⟩
+    · obtain ⟨acts, h⟩ := ih (step fixed s (dtFor s))
+      exact ⟨.go (dtFor s) :: acts, by rw [h]; rfl⟩
+
+/-- **An action that raises resets the trampoline.**  In any reachable state in which the running action's
+next operation is `raise`, two steps later (the exception leaves the drain loop; the `except BaseException`
+block runs) the trampoline is idle with an EMPTY queue, the loop's pending batch is gone, and only the
+top-level program is left on the stack — so the next `schedule*` call starts a fresh drain loop.  (The
+exception itself is re-raised to the `schedule*` caller.) -/
+theorem raise_resets_trampoline (fixed : Bool) (prog : List Op) (clock : Int) (acts : List Act)
+    (i : Nat) (ops : List Op) (rest : List Frame) (d1 d2 : Nat)
+    (hst : (runA fixed (init prog clock) acts).th.stack = .act (some i) (.raise_ :: ops) :: rest) :
+    let s2 := step fixed (step fixed (runA fixed (init prog clock) acts) d1) d2
+    s2.tr.idle = true ∧ s2.tr.queue = [] ∧ s2.tr.raisedG = true ∧ nDrain s2.th.stack = 0 ∧ nRunning s2.th.stack = 0 ∧
+      (∃ mops, s2.th.stack = [.act none mops]) := by
+  obtain ⟨o, hs, _⟩ := (reach fixed prog clock acts).i1
+  generalize runA fixed (init prog clock) acts = s at *
+  rcases s with ⟨⟨idle, queue, rg⟩, g, ⟨stack, log⟩⟩
+  simp only at hst hs
+  subst hst
+  cases hs with
+  | inAct i ops ready mops => simp [step, thStep, nDrain, nRunning]
+  | main m hm => simp [isMain] at hm
+
+/-- after ANY reachable state, an idle trampoline has an empty queue and no drain frame: a raise (or a normal
+exit) never leaves stale items behind for the next run. -/
+theorem idle_means_fresh (fixed : Bool) (prog : List Op) (clock : Int) (acts : List Act)
+    (hidle : (runA fixed (init prog clock) acts).tr.idle = true) :
+    nDrain (runA fixed (init prog clock) acts).th.stack = 0 := by
+  obtain ⟨o, hs, _⟩ := (reach fixed prog clock acts).i1
+  have := (shape_counts hs).2
+  rw [this, hidle]; rfl
 
 /-! ## Non-vacuity and the past-due deviation (DESIGN §6 #15, first half) -/
 
@@ -109,6 +139,7 @@ private def progA : List Op :=
 
 private def evName : Ev → Option (String × Nat × Int)
   | .start id _ _ clk => some ("start", id, clk)
+  | .raised id => some ("raised", id, 0)
   | .fin id => some ("fin", id, 0)
   | .skip id => some ("skip", id, 0)
   | _ => none
@@ -118,6 +149,13 @@ example : ((exec false 100 (init progA)).th.log.reverse.filterMap evName) =
     [("start", 1, 0), ("fin", 1, 0), ("skip", 2, 0), ("start", 3, 7), ("fin", 3, 0), ("start", 5, 10), ("fin", 5, 0),
      ("start", 4, 100), ("fin", 4, 0)] := by decide
 example : (exec false 100 (init progA)).th.stack = [] ∧ (exec false 100 (init progA)).tr.idle = true := by decide
+
+/-- a raising action: A schedules B and C; B raises — C (already in the loop's batch) and D (queued by B) are
+discarded, the trampoline is idle and empty; the next top-level schedule (E) runs in a fresh drain loop. -/
+private def progRaise : List Op := [.sched 1 [.sched 2 [.schedRel 4 5 [], .raise_], .sched 3 []], .sched 5 []]
+example : ((exec true 100 (init progRaise)).th.log.reverse.filterMap evName) =
+    [("start", 1, 0), ("fin", 1, 0), ("start", 2, 0), ("raised", 2, 0), ("start", 5, 0), ("fin", 5, 0)] := by decide
+example : (exec true 100 (init progRaise)).tr.idle = true ∧ (exec true 100 (init progRaise)).tr.queue.length = 0 := by decide
 
 /-- the past-due deviation: B (running from a ready batch [B, C]) schedules P with an absolute due time in
 the past; P runs AFTER C although P is due earlier.  `NoPast` fails for this log, so `tramp_due_order`
@@ -197,10 +235,12 @@ theorem done_facts (s : Sys) (hd : s.done = true) (k : Nat) :
 
 /-- **With the fix, no action is lost on a shared trampoline**: when every thread has returned, on every
 trampoline the number of enqueued items equals the number of items taken out of a ready batch (started,
-or found cancelled) — under every interleaving of any number of threads. -/
+or found cancelled) — under every interleaving of any number of threads — provided no action raised on that
+trampoline (a raising action discards what is pending, by design: `raise_resets_trampoline`). -/
 theorem shared_fixed_no_item_lost (ntr : Nat) (progs : List (Nat × List Op)) (clock : Int)
     (sched : List (Nat × Nat)) (k : Nat) (hk : k < ntr)
-    (hd : ((Sys.init ntr progs clock).run true sched).done = true) :
+    (hd : ((Sys.init ntr progs clock).run true sched).done = true)
+    (hnr : ∀ tr, ((Sys.init ntr progs clock).run true sched).trs[k]? = some tr → tr.raisedG = false) :
     sumBy (enqOn k) ((Sys.init ntr progs clock).run true sched).ths
       = sumBy (fun p => if p.1 = k then nOut p.2.log else 0) ((Sys.init ntr progs clock).run true sched).ths := by
   have inv := mreach true ntr progs clock sched
@@ -229,7 +269,7 @@ theorem shared_fixed_no_item_lost (ntr : Nat) (progs : List (Nat × List Op)) (c
     · simp [hi] at hm; omega
     · rfl
   have hq := inv.idleEmpty k tr htr hidle
-  have hc := inv.cons rfl k tr htr
+  have hc := inv.cons rfl k tr htr (hnr tr htr)
   rw [hq, d1] at hc
   simpa using hc
 
